@@ -7,7 +7,7 @@ from tartiflette import Resolver, TypeResolver, Directive, Subscription
 
 NAME = "vworld"
 SDL = """
-directive @tag(n: Int) on QUERY | MUTATION | SUBSCRIPTION | FIELD | FRAGMENT_DEFINITION | FRAGMENT_SPREAD | INLINE_FRAGMENT
+directive @tag(n: Int, l: [Int]) on QUERY | MUTATION | SUBSCRIPTION | FIELD | FRAGMENT_DEFINITION | FRAGMENT_SPREAD | INLINE_FRAGMENT
 directive @onlyq(n: Int) on QUERY
 directive @mark on FIELD_DEFINITION | ARGUMENT_DEFINITION | INPUT_FIELD_DEFINITION | SCALAR | ENUM | OBJECT
 interface Node { id: ID! }
